@@ -6,6 +6,9 @@ from ..tables import t6_transforms
 def run(ctx: Ctx) -> None:
     t6_transforms.run_histories(ctx, max_len=2 if ctx.tier == "quick" else 3)
     t6_transforms.run_regrid(ctx)
+    t6_transforms.run_composite_histories(ctx)
+    ctx.floor("T6x.composite", 1)
+    ctx.floor("T6x.linked-inverse", 2)
     ctx.floor("T6x.call-fresh", 16)
     ctx.floor("T6x.replace-fresh", 16)
     ctx.floor("T6x.regrid", 8)
